@@ -214,7 +214,7 @@ PressCount(w) == LET ps == Split(w, "*") IN IF Len(ps) = 1 THEN 1 ELSE NumVal(ps
 PressWordOK(w) == LET ps == Split(w, "*") IN
                   /\ PressName(w) \in PressNames
                   /\ Len(ps) <= 2
-                  /\ (Len(ps) = 2 => ps[2] # <<>> /\ NumVal(ps[2], 10, 0) >= 0)
+                  /\ (Len(ps) = 2 => ps[2] # <<>> /\ NumVal(ps[2], 10, 0) >= 1)     \* "s*3" = "s s s"; a count of 0 is not defined
 \* NONE: no key down; SkoolKit's choice: it lasts until any half-row has been read
 PressSlot(name) == IF name = "NONE" THEN [keys |-> {}, unread |-> Rows] ELSE Slot({name})
 PressPlan(ws) == Flatten([i \in 1..Len(ws) |-> Repeat(PressSlot(PressName(ws[i])), PressCount(ws[i]))])
